@@ -258,6 +258,182 @@ class Extractor:
             return ('star' if cal.endswith('take_while') else 'plus', ('class', name))
         return ('unknown', 'combinator ' + cal)
 
+    # ------------------------------------------------------------------ value semantics (what a parser RETURNS)
+    # The grammar reading above says which bytes a parser expression consumes.  The reading below says, for the same expression,
+    # what its OUTPUT is as a function of those bytes.  Value algebra (every node carries the grammar of the parts it speaks of):
+    #   ('text',)                    the bytes this very expression consumed (a sub-slice of the input)
+    #   ('byte',)                    the one byte this expression consumed, as a u8
+    #   ('fn', path)                 the output of the local parser function `path` (see fn_value) applied here
+    #   ('sub', k, [g..], V)         of the parts g.. applied in sequence, the output V of part k; the others are dropped
+    #   ('tuple', [k..], [g..], [V..])   the outputs of the parts k.. of the sequence g.., as a tuple
+    #   ('alt', [g..], [V..])        the output of whichever alternative matched
+    #   ('opt', g, V)                Some(V) when g matched, None otherwise
+    #   ('list', g, V)               the vector of the outputs V of the repeated g, in input order
+    #   ('fold', g, V, init, step)   step folded over the outputs V of the repeated g, in input order, from init()
+    #   ('map', f, g, V) / ('mapres', f, g, V)      f applied to the output V of g (map_res: f's Ok payload)
+    #   ('peek', g, V)               the output V of g matched at this position; nothing is consumed
+    #   ('unit',)  ('computed', expr node, [(g, V, binding)..])   a let-chain's own value: `()` / an expression over its steps' outputs
+    #   ('unknown', why)
+    # One line per nom combinator, each stated for all inputs on which the combinator succeeds (nom 7 sources):
+    #   tag(t): Ok((rest, matched)) where matched = input[..t.len()] (== t);  take_while(1)(p), digit1: Ok((rest, longest prefix));
+    #   be_u8: the first byte;  recognize(p): runs p, returns input[..consumed by p];  verify(p, f): p's output unchanged;
+    #   preceded(a, b): b's output;  terminated(a, b): a's output;  delimited(a, b, c): b's output;  pair / tuple: all outputs;
+    #   separated_pair(a, s, b): (a's, b's);  opt(p): Some(output) / None;  many0 / many1(p): Vec of p's outputs;
+    #   fold_many0(p, init, f): f folded over p's outputs;  map(p, f): f(output);  map_res(p, f): f(output)?;  peek(p): p's output,
+    #   input not advanced;  alt((..)): the output of the first alternative that succeeds.
+    def _quiet(self, fn, *a):
+        """run a grammar extraction for its result only (the registers P1 / P2 read are left as they were)"""
+        saved = (list(self.checks), dict(self.chains), getattr(self, 'cur', None), set(self.prims_used), dict(self.classes))
+        try:
+            return fn(*a)
+        finally:
+            self.checks[:] = saved[0]
+            self.chains = saved[1]
+            self.cur = saved[2]
+            self.prims_used = saved[3]
+            self.classes = saved[4]
+
+    def fn_value(self, path):
+        """output of the parser function `path` (a combinator expression or a let-chain; a parser written by hand has no value
+        reading here: ('unknown', ..), the rules that need it fail closed)"""
+        memo = self.__dict__.setdefault('_fn_values', {})
+        if path not in memo:
+            rec = self.facts.hir[path]
+            memo[path] = ('unknown', 'recursive parser function')
+            memo[path] = self._quiet(self.block_value, rec['body'], rec['params'])
+        return memo[path]
+
+    def block_value(self, b, params):
+        inp = [x[0] for p in params for x in hirq.pat_bindings(p)]
+        if b['k'] != 'Block':
+            return self.apply_value(b, inp)
+        steps = []
+        cur = set(inp)
+        for s in b['stmts']:
+            if s['k'] != 'Let' or s.get('init') is None:
+                if s['k'] == 'Item':
+                    continue
+                ge = s.get('e') if s['k'] in ('Expr', 'Semi') else None
+                if ge is not None and ge['k'] == 'If' and ge.get('els') is None and hirq.diverges(ge['then']):
+                    continue                 # a rejection: does not change what an accepting path returns
+                return ('unknown', 'statement %s in a parser body' % s['k'])
+            init = s['init']
+            if init['k'] == 'Try':
+                g = self.apply_grammar(init['e'], cur)
+                v = self.apply_value(init['e'], cur)
+                if g[0] == 'unknown':
+                    return g
+                pat = s['pat']
+                vb = pat['pats'][1]['bind'] if (pat['k'] == 'PTuple' and len(pat['pats']) == 2 and pat['pats'][1]['k'] == 'Bind') else None
+                steps.append((flat(g), v, vb))
+                if pat['k'] == 'PTuple' and pat['pats'] and pat['pats'][0]['k'] == 'Bind':
+                    cur = {pat['pats'][0]['bind']}
+                else:
+                    return ('unknown', 'let pattern of a parser application is not (rest, value)')
+            elif any(n['k'] == 'Try' for n, c in walk(init)):
+                return ('unknown', 'parser application nested in a value expression')
+        tail = b.get('expr')
+        if tail is None:
+            return ('unknown', 'parser body without a value')
+        gs = [g for g, v, vb in steps]
+        if tail['k'] == 'Call' and hirq.short_def(tail['f'].get('def', '')) == 'Ok' and steps:
+            t = tail['args'][0]
+            if not (t['k'] == 'Tup' and len(t['elems']) == 2 and hirq.local_of(t['elems'][0]) in cur):
+                return ('unknown', 'the remainder returned is not the last parser\'s remainder')
+            val = t['elems'][1]
+            if val['k'] == 'Tup' and not val['elems']:
+                return ('unit',)
+            lb = hirq.local_of(val) if val['k'] == 'Path' else None          # the binding itself: not a reference to / deref of it
+            hit = [k for k, (g, v, vb) in enumerate(steps) if vb is not None and vb == lb]
+            if len(hit) == 1:
+                return ('sub', hit[0], gs, steps[hit[0]][1])
+            return ('computed', val, steps)
+        g = self.apply_grammar(tail, cur)
+        v = self.apply_value(tail, cur)
+        if g[0] == 'unknown':
+            return g
+        return ('sub', len(steps), gs + [flat(g)], v) if steps else v
+
+    def apply_value(self, e, inputs):
+        if e['k'] == 'Block' and not e['stmts'] and e.get('expr') is not None:
+            e = e['expr']
+        if e['k'] != 'Call':
+            return ('unknown', 'expected a parser application, found ' + e['k'])
+        if len(e['args']) != 1 or hirq.local_of(e['args'][0]) not in inputs:
+            return ('unknown', 'parser applied to something other than the current input at %s' % loc(e))
+        cal = callee_of(e)
+        if cal is not None:
+            return self.named_value(cal)
+        return self.value(e['f'])
+
+    def named_value(self, cal):
+        if cal.startswith(self.prefix):
+            return ('fn', cal)
+        if cal == 'nom::character::complete::digit1':
+            return TEXT
+        if cal == 'nom::number::complete::be_u8':
+            return BYTE
+        return ('unknown', 'call to ' + cal)
+
+    def value(self, e):
+        """output of the parser-valued expression e (the value counterpart of comb)"""
+        k = e['k']
+        if k == 'Path':
+            return self.named_value(e.get('inst') or e.get('def'))
+        if k == 'Closure':
+            return self.block_value(e['body'], e['params'])
+        if k != 'Call':
+            return ('unknown', 'parser expression ' + k)
+        cal = callee_of(e) or ''
+        a = e['args']
+        G = lambda x: flat(self.comb(x))
+        if cal == 'nom::branch::alt':
+            if a[0]['k'] != 'Tup':
+                return ('unknown', 'alt argument')
+            return ('alt', [G(x) for x in a[0]['elems']], [self.value(x) for x in a[0]['elems']])
+        if cal in ('nom::sequence::delimited', 'nom::sequence::preceded', 'nom::sequence::terminated'):
+            keep = {'delimited': 1, 'preceded': 1, 'terminated': 0}[cal.rsplit('::', 1)[1]]
+            if len(a) != (3 if cal.endswith('delimited') else 2):
+                return ('unknown', 'arity of ' + cal)
+            return ('sub', keep, [G(x) for x in a], self.value(a[keep]))
+        if cal in ('nom::sequence::pair', 'nom::sequence::tuple', 'nom::sequence::separated_pair'):
+            els = a[0]['elems'] if (cal.endswith('::tuple') and a and a[0]['k'] == 'Tup') else a
+            if cal.endswith('::tuple') and not (a and a[0]['k'] == 'Tup'):
+                return ('unknown', 'tuple argument')
+            keep = [0, 2] if cal.endswith('separated_pair') else list(range(len(els)))
+            return ('tuple', keep, [G(x) for x in els], [self.value(els[k_]) for k_ in keep])
+        if cal == 'nom::combinator::peek':
+            return ('peek', G(a[0]), self.value(a[0]))
+        if cal in ('nom::multi::many0', 'nom::multi::many1'):
+            return ('list', G(a[0]), self.value(a[0]))
+        if cal == 'nom::multi::fold_many0':
+            return ('fold', G(a[0]), self.value(a[0]), a[1], a[2])
+        if cal == 'nom::combinator::opt':
+            return ('opt', G(a[0]), self.value(a[0]))
+        if cal == 'nom::combinator::recognize':
+            return TEXT
+        if cal == 'nom::combinator::verify':
+            return self.value(a[0])
+        if cal in ('nom::combinator::map', 'nom::combinator::map_res'):
+            return ('map' if cal.endswith('::map') else 'mapres', a[1], G(a[0]), self.value(a[0]))
+        if cal in ('nom::bytes::complete::tag', 'nom::bytes::streaming::tag',
+                   'nom::bytes::complete::take_while', 'nom::bytes::complete::take_while1'):
+            return TEXT
+        return ('unknown', 'combinator ' + cal)
+
+    def step_value(self, path, entry):
+        """output of one step `let (rest, x) = <parser>(rest)?;` of the let-chain of function `path` (an entry of self.chains[path])"""
+        app = entry['app']
+        cal = callee_of(app)
+        return self.named_value(cal) if cal is not None else self.value_of(app['f'], path)
+
+    def value_of(self, e, path):
+        """output of the parser-valued expression e that stands in the body of function `path`"""
+        def go():
+            self.cur = path
+            return self.value(e)
+        return self._quiet(go)
+
     def class_name(self, pred):
         if pred['k'] == 'Path':
             d = pred.get('inst') or pred.get('def')
@@ -269,6 +445,64 @@ class Extractor:
             return name
         return 'unknown-predicate'
 
+
+TEXT = ('text',)
+BYTE = ('byte',)
+
+def show_value(v):
+    k = v[0]
+    if k == 'text': return 'the consumed bytes'
+    if k == 'byte': return 'the consumed byte'
+    if k == 'fn': return 'output of %s()' % v[1].split('::')[-1]
+    if k == 'sub': return '[%s] -> part %d: %s' % (' '.join(show(g) for g in v[2]), v[1] + 1, show_value(v[3]))
+    if k == 'tuple': return '(%s)' % ', '.join(show_value(x) for x in v[3])
+    if k == 'alt': return 'one of (%s)' % ' / '.join(show_value(x) for x in v[2])
+    if k == 'opt': return 'Option of %s' % show_value(v[2])
+    if k == 'list': return 'Vec of %s' % show_value(v[2])
+    if k == 'fold': return 'fold over %s' % show_value(v[2])
+    if k in ('map', 'mapres'): return '%s(closure, %s)' % ('map' if k == 'map' else 'map_res', show_value(v[3]))
+    if k == 'peek': return 'peek of %s' % show_value(v[2])
+    if k == 'unit': return '()'
+    if k == 'computed': return 'an expression computed from the parsed parts'
+    return '?? %s' % (v[1] if len(v) > 1 else '')
+
+def text_part(v, g, fn_value, only_empty, depth=0):
+    """Decides whether the output v of a parser with grammar g is a slice of the input, and which one.
+    Returns (part, whole, why): `part` is the sub-grammar of g whose consumed bytes the output is *exactly*, on every input the
+    parser accepts (None: the output is no such slice, `why` says what it is instead); `whole` is True when those are all the
+    bytes g consumed.  fn_value(path) -> (value, grammar) of a local parser function; only_empty(g) -> True iff g can consume
+    nothing but the empty string (decided on its language; undecided = False, so the answer errs towards "not the whole")."""
+    if depth > 40:
+        return None, False, 'parser functions nested too deeply'
+    k = v[0]
+    if k == 'text':
+        return g, True, ''
+    if k == 'fn':
+        fv, fg = fn_value(v[1])
+        part, whole, why = text_part(fv, fg, fn_value, only_empty, depth + 1)
+        name = v[1].split('::')[-1]
+        if part is None:
+            return None, False, '%s() returns %s' % (name, why or show_value(fv))
+        if whole:
+            return ('ref', v[1]), True, ''
+        return part, False, '%s() consumes `%s` but returns only the bytes of its part `%s`' % (name, show(fg), show(part))
+    if k == 'sub':
+        idx, parts, inner = v[1], v[2], v[3]
+        part, whole, why = text_part(inner, parts[idx], fn_value, only_empty, depth + 1)
+        if part is None:
+            return None, False, why
+        others = [p for j, p in enumerate(parts) if j != idx and not only_empty(p)]
+        if whole and not others:
+            return g, True, ''
+        return part, False, why or 'of the sequence `%s` only the bytes of `%s` are returned, those of `%s` are consumed and dropped' % (
+            ' '.join(show(p) for p in parts), show(part), ' '.join(show(p) for p in others))
+    if k == 'alt':
+        res = [text_part(x, gx, fn_value, only_empty, depth + 1) for gx, x in zip(v[1], v[2])]
+        bad = [r for r in res if not r[1]]
+        if not bad:
+            return g, True, ''
+        return None, False, bad[0][2] or 'an alternative returns something other than the bytes it consumed'
+    return None, False, show_value(v)
 
 def prefix_split(t):
     """Library model, stated once: terms that denote one half of "the input split after its longest prefix of bytes satisfying a
